@@ -258,6 +258,63 @@ func main() {
 			}
 		}
 	}
+	// ---- family R: TWO live receivers of one type. Method values and calls through script interfaces must stay bound to
+	// the receiver they were selected from when another value of the same type is selected in between (method values
+	// kept in variables / slices, interleaved and nested calls); results and state depend on the receiver.
+	for _, depth := range []string{"2", "3v", "3p"} {
+		for _, rB := range []string{"B", "*B"} {
+			for _, emb := range []string{"B", "*B"} {
+				for _, sh := range []string{"", "T", "*T"} {
+					for _, holder := range []string{"val", "ptr"} {
+						decl := "type B struct{ N int }\n\n"
+						decl += fmt.Sprintf("func (b %s) M() int { b.N += 10; return b.N }\n\n", rB)
+						decl += fmt.Sprintf("func (b %s) Join(x int) int { return b.N*1000 + x }\n\n", rB)
+						decl += "type I interface{ M() int }\n\ntype JI interface{ Join(x int) int }\n\n"
+						decl += fmt.Sprintf("type T struct {\n\t%s\n\tK int\n}\n\n", emb)
+						if sh != "" {
+							decl += fmt.Sprintf("func (t %s) M() int { t.K += 100; return t.K }\n\n", sh)
+						}
+						mkInner := func(n string) string {
+							if emb == "B" {
+								return "T{B: B{" + n + "}, K: " + n + "}"
+							}
+							return "T{B: &B{" + n + "}, K: " + n + "}"
+						}
+						mk := mkInner
+						switch depth {
+						case "3v":
+							decl += "type U struct {\n\tT\n\tL int\n}\n\n"
+							mk = func(n string) string { return "U{T: " + mkInner(n) + "}" }
+						case "3p":
+							decl += "type U struct {\n\t*T\n\tL int\n}\n\n"
+							mk = func(n string) string { return "U{T: &" + mkInner(n) + "}" }
+						}
+						amp := ""
+						if holder == "ptr" {
+							amp = "&"
+						}
+						init := "v := " + amp + mk("1") + "\nw := " + amp + mk("2")
+						state := "Show(v.N, v.K, w.N, w.K)"
+						uses := [][2]string{
+							{"mval2", "var i1 I = v\nvar i2 I = w\nf := i1.M\ng := i2.M\nShow(f(), g(), f())\n" + state},
+							{"interleave", "var i1 I = v\nvar i2 I = w\nf := i1.M\nShow(i2.M())\nShow(f())\n" + state},
+							{"loopCollect", "var fs []func() int\nfor _, i := range []I{v, w} {\nfs = append(fs, i.M)\n}\nfor _, f := range fs {\nShow(f())\n}\n" + state},
+							{"nested", "var j1 JI = v\nvar j2 JI = w\nShow(j1.Join(j2.Join(7)))\nShow(j2.Join(j1.Join(7)))\n" + state},
+							{"nestedM", "var i1 I = v\nvar i2 I = w\nShow(i1.M() + 1000*i2.M())\nadd := func(a, b int) int { return a*1000 + b }\nShow(add(i1.M(), i2.M()))\n" + state},
+							{"direct2", "f := v.M\ng := w.M\nShow(f(), g(), f())\nh := v.Join\nShow(w.Join(h(3)))\n" + state},
+							{"mapOfMvals", "m := map[string]func() int{}\nfor k, i := range map[string]I{\"v\": v, \"w\": w} {\nm[k] = i.M\n}\nShow(m[\"v\"](), m[\"w\"](), m[\"v\"]())\n" + state},
+							{"passBoth", "Show(both(v, w))\nShow(both(w, v))\n" + state},
+						}
+						for _, u := range uses {
+							name := fmt.Sprintf("R d=%s rB=%s emb=%s sh=%s h=%s u=%s", depth, rB, emb, orDash(sh), holder, u[0])
+							body := "func both(a, b I) int {\nf := a.M\nx := b.M()\nreturn f()*1000 + x\n}\n\nfunc main() {\n" + init + "\n" + u[1] + "\n}\n"
+							progs = append(progs, emit.Src{Name: name, Text: head + decl + body})
+						}
+					}
+				}
+			}
+		}
+	}
 	res, err := emit.Package(emit.Root()+"/gen/c05cases", "c05cases", progs, 64)
 	if err != nil {
 		fmt.Fprintln(os.Stderr, "HARNESS-ERROR:", err)
